@@ -1,7 +1,7 @@
 (* Model/ContextCorr.v — agreement predicates and oracles used by the generated
    case files of the C14 / C19 correspondence checks. *)
 From Coq Require Import String Ascii NArith List Bool.
-From XV Require Import Base.Str Base.Eqb Model.Context.
+From XV Require Import Base.Str Base.Eqb Model.Context Model.Sched.
 Import ListNotations.
 Open Scope N_scope.
 
@@ -47,13 +47,45 @@ Definition observe (t : trace) : list otev :=
                      | _ => []
                      end) t.
 
-Definition trace_agree (t : trace) (o : list otev) : bool := list_eqb otev_eqb (observe t) o.
+(* DictDecoder.bind_best_dataclass iterates a *set* of classes: the order of the
+   accesses inside a decode depends on object addresses; such operations are
+   compared as multisets *)
+Fixpoint remove_otev (e : otev) (l : list otev) : option (list otev) :=
+  match l with
+  | [] => None
+  | x :: r => if otev_eqb e x then Some r
+              else match remove_otev e r with Some r' => Some (x :: r') | None => None end
+  end.
+Fixpoint perm_otev (a b : list otev) : bool :=
+  match a with
+  | [] => match b with [] => true | _ => false end
+  | e :: r => match remove_otev e b with Some b' => perm_otev r b' | None => false end
+  end.
+Definition trace_agree (ordered : bool) (t : trace) (o : list otev) : bool :=
+  if ordered then list_eqb otev_eqb (observe t) o else perm_otev (observe t) o.
 
 (* one step of a case: an environment change, or an operation with what the
    implementation returned on the shared and on fresh instances *)
 Inductive step :=
 | StEnv (e : envop)
-| StOp (o : op) (r_shared r_fresh : res) (t_shared t_fresh : list otev).
+| StOp (o : op) (ordered : bool) (r_shared r_fresh : res) (t_shared t_fresh : list otev)
+| StOpq (r_shared r_fresh : res) (t_shared t_fresh : list otev).
+
+(* An operation outside the modelled binding fragment (unions, compound fields,
+   tokens, non-str primitives ...) is *opaque*: its script is the replay of the
+   context accesses the implementation made on fresh instances in this very step;
+   its result is the list of answers it obtained.  The model then predicts
+   "differs from fresh" exactly when some answer of the context differs — which
+   is all a client that keeps no state of its own can depend on. *)
+Definition call_of_otev (e : otev) : call :=
+  match e with OBuild c p => CBuild c p | OLookup q _ => CFindTypes q end.
+Definition tree_of_ans (a : ans) : tree :=
+  match res_of_ans a with ROk t => t | RErr k _ => Node (lit "err:" ++ k) [] end.
+Fixpoint opaque_script (l : list otev) (acc : list tree) : script :=
+  match l with
+  | [] => Ret (ROk (Node (lit "opaque") (rev acc)))
+  | e :: r => Call (call_of_otev e) (fun a => opaque_script r (tree_of_ans a :: acc))
+  end.
 
 Record sim := mkSim { s_w : world; s_x : ctx; s_t : trace }.
 
@@ -68,16 +100,27 @@ Record verdict := mkVerdict {
 Definition step_verdict (st : sim) (s : step) : sim * option verdict :=
   match s with
   | StEnv e => (mkSim (env_step (s_w st) e) (s_x st) (s_t st), None)
-  | StOp o rs rf ts tf =>
+  | StOp o ord rs rf ts tf =>
       let sc := op_script (s_w st) o in
       let '(x1, r1, t1) := run_script (s_w st) (s_x st) sc in
       let '(_, r2, t2) := run_script (s_w st) ctx0 sc in
       (mkSim (s_w st) x1 (s_t st ++ t1),
-       Some (mkVerdict (res_eqb r1 rs && res_eqb r2 rf && trace_agree t1 ts && trace_agree t2 tf)
+       Some (mkVerdict (res_eqb r1 rs && res_eqb r2 rf && trace_agree ord t1 ts && trace_agree ord t2 tf)
                        (negb (res_eqb rs rf)) (negb (res_eqb r1 r2))
                        (dev_ns t1 || dev_ns t2) (dev_stale t1 || dev_stale t2)
                        (dev_prune t1 || dev_prune t2)
                        (negb (Bool.eqb (has_recfail t1) (has_recfail t2)))
+                       (ns_closed t2 && quiet t2)))
+  | StOpq rs rf ts tf =>
+      let sc := opaque_script tf [] in
+      let '(x1, r1, t1) := run_script (s_w st) (s_x st) sc in
+      let '(_, r2, t2) := run_script (s_w st) ctx0 sc in
+      let same := res_eqb r1 r2 in
+      (mkSim (s_w st) x1 (s_t st ++ t1),
+       Some (mkVerdict (trace_agree true t2 tf && (negb same || trace_agree true t1 ts))
+                       (negb (res_eqb rs rf)) (negb same)
+                       (dev_ns t1 || dev_ns t2) (dev_stale t1 || dev_stale t2)
+                       (dev_prune t1 || dev_prune t2) false
                        (ns_closed t2 && quiet t2)))
   end.
 
@@ -101,17 +144,18 @@ Fixpoint hops_of (w : world) (l : list step) : list hop :=
   match l with
   | [] => []
   | StEnv e :: r => HEnv e :: hops_of (env_step w e) r
-  | StOp o _ _ _ _ :: r => HRun (op_script w o) :: hops_of w r
+  | StOp o _ _ _ _ _ :: r => HRun (op_script w o) :: hops_of w r
+  | StOpq _ _ _ tf :: r => HRun (opaque_script tf []) :: hops_of w r
   end.
 
 (* the guard of C14_history_independent_guarded for *every* call of the case: the
    clauses are monotone in the history (a sub-trace of a consistent, quiet trace is
    consistent and quiet), so it is evaluated once on the whole shared trace, plus the
    fresh run of each call *)
-Definition case_guard (c : case) : bool :=
-  let '(st, vs) := run_case c in
+Definition guard_of (c : case) (st : sim) (vs : list verdict) : bool :=
   world_ok (fst c) && modules_stable (hops_of (fst c) (snd c))
   && ns_closed (s_t st) && quiet (s_t st) && forallb v_fresh_guard vs.
+Definition case_guard (c : case) : bool := let '(st, vs) := run_case c in guard_of c st vs.
 
 (* oracle 1: under the guard no call may differ from fresh instances *)
 Definition oracle_guarded (c : case) : bool :=
@@ -123,16 +167,18 @@ Definition explained (v : verdict) : bool :=
   negb (v_differs v) || (v_model_differs v && (v_ns v || v_stale v || v_prune v || v_rec v)).
 Definition oracle_explained (c : case) : bool := forallb explained (case_verdicts c).
 
-(* summary bit mask of a case:
+(* summary bit mask of a case (the model is run once):
    1 agree, 2 oracle_guarded, 4 oracle_explained, 8 some call differs, 16 guard holds,
    32 ns-cache-key, 64 stale-subclass-index, 128 pruned-index, 256 build-recursive
    (the last four: the defect deviates in a call that differs) *)
 Definition b2n (b : bool) (n : nat) : nat := if b then n else O.
 Definition case_summary (c : case) : nat :=
-  let vs := case_verdicts c in
+  let '(st, vs) := run_case c in
   let d := filter v_differs vs in
-  (b2n (forallb v_agree vs) 1 + b2n (oracle_guarded c) 2 + b2n (forallb explained vs) 4
-   + b2n (existsb v_differs vs) 8 + b2n (case_guard c) 16
+  let g := guard_of c st vs in
+  (b2n (forallb v_agree vs) 1 + b2n (negb g || forallb (fun v => negb (v_differs v)) vs) 2
+   + b2n (forallb explained vs) 4
+   + b2n (existsb v_differs vs) 8 + b2n g 16
    + b2n (existsb v_ns d) 32 + b2n (existsb v_stale d) 64 + b2n (existsb v_prune d) 128
    + b2n (existsb v_rec d) 256)%nat.
 
@@ -142,3 +188,72 @@ Fixpoint first_differs (vs : list verdict) (i : nat) : option nat :=
   | [] => None
   | v :: r => if v_differs v then Some i else first_differs r (S i)
   end.
+
+(* diagnostics for replays: per operation step, 0 = agrees, 1 = a result differs,
+   2 = only a logged access differs *)
+Definition step_diag (st : sim) (s : step) : option nat :=
+  match s with
+  | StEnv _ => None
+  | StOp o ord rs rf ts tf =>
+      let sc := op_script (s_w st) o in
+      let '(_, r1, t1) := run_script (s_w st) (s_x st) sc in
+      let '(_, r2, t2) := run_script (s_w st) ctx0 sc in
+      Some (if negb (res_eqb r1 rs && res_eqb r2 rf) then 1%nat
+            else if negb (trace_agree ord t1 ts && trace_agree ord t2 tf) then 2%nat else 0%nat)
+  | StOpq _ _ _ _ => Some (match step_verdict st s with (_, Some v) => if v_agree v then 0%nat else 2%nat | _ => 0%nat end)
+  end.
+Fixpoint diag_steps (st : sim) (l : list step) : list nat :=
+  match l with
+  | [] => []
+  | s :: r => let '(st1, _) := step_verdict st s in
+              match step_diag st s with Some n => n :: diag_steps st1 r | None => diag_steps st1 r end
+  end.
+Definition case_diag (c : case) : list nat := diag_steps (mkSim (fst c) ctx0 []) (snd c).
+
+(* ====================================================================== *)
+(* C19: several threads through one shared context, under a schedule.
+   cc_warm: operations run one after the other before the threads start (empty =
+   a cold context); cc_threads: one operation per thread; cc_sched: thread numbers;
+   observed: the result of every thread, the result of the same operation run alone
+   on an identically prepared context, and the marked source lines in execution
+   order as (thread, label). *)
+Record ccase := mkCC {
+  cc_world : world; cc_warm : list op; cc_threads : list op; cc_sched : list nat;
+  cc_results : list res; cc_solo : list res; cc_log : list (nat * nat) }.
+
+Definition warm_up (w : world) (ops : list op) : sstate :=
+  fold_left (fun st o => fst (solo w st (expand w (op_script w o)))) ops s0.
+
+Definition lres_eqb := list_eqb res_eqb.
+Definition log_eqb := list_eqb (fun a b : nat * nat => Nat.eqb (fst a) (fst b) && Nat.eqb (snd a) (snd b)).
+
+Definition cc_progs (c : ccase) : list script := map (op_script (cc_world c)) (cc_threads c).
+
+(* is the state one in which the index is current *)
+Definition index_eqb (a b : list (str * list cid)) : bool :=
+  list_eqb (fun x y : str * list cid => str_eqb (fst x) (fst y) && lcid_eqb (snd x) (snd y)) a b.
+Definition is_warm (w : world) (st : sstate) : bool :=
+  N.eqb (s_seen st) (w_modules w) && index_eqb (index_of st) (ideal_index w).
+
+(* summary bit mask of a concurrent case:
+   1 agree (results, solo results, executed marked lines), 2 inside the guard of
+   warm_context_safe no thread differs from its solo run, 4 every difference is
+   explained (the model reproduces it and the context was cold or the requests
+   are not ns-closed), 8 some thread differs, 16 the guard holds, 32 the index was
+   not current (cold-index-race), 64 the requests are not ns-closed *)
+Definition ccase_summary (c : ccase) : nat :=
+  let w := cc_world c in
+  let st := warm_up w (cc_warm c) in
+  let progs := cc_progs c in
+  let mres := conc_run w st progs (cc_sched c) in
+  let msolo := map (solo_run w st) progs in
+  let mlog := conc_labels w st progs (cc_sched c) in
+  let agree := lres_eqb mres (cc_results c) && lres_eqb msolo (cc_solo c) && log_eqb mlog (cc_log c) in
+  let differs := negb (lres_eqb (cc_results c) (cc_solo c)) in
+  let mdiffers := negb (lres_eqb mres msolo) in
+  let warm := is_warm w st in
+  let closed := conc_guard w (s_cache st) progs in
+  let g := warm && closed in
+  (b2n agree 1 + b2n (negb g || negb differs) 2
+   + b2n (negb differs || (mdiffers && (negb warm || negb closed))) 4
+   + b2n differs 8 + b2n g 16 + b2n (differs && negb warm) 32 + b2n (differs && negb closed) 64)%nat.
